@@ -187,7 +187,26 @@ func runGrammar(c *ShardCtx, g *peg.Grammar, f *family) {
 					if len(diffs) == 0 {
 						continue
 					}
+					// an extra oracle may attribute its only diff to a known finding:
+					// "@quirk:<name>|<message>"
+					tagged := ""
+					if len(diffs) == 1 && strings.HasPrefix(diffs[0], quirkTag) {
+						rest := strings.TrimPrefix(diffs[0], quirkTag)
+						if i := strings.Index(rest, "|"); i >= 0 {
+							name := rest[:i]
+							diffs[0] = rest[i+1:]
+							for _, q := range c.Quirks() {
+								if q == name {
+									tagged = q
+								}
+							}
+						}
+					}
 					v := Violation{Desc: diffs[0], Grammar: text, Gen: gen.String(), Input: string(in), InputHex: hexOf(in), Opts: optsString(&o) + " " + scriptString(script), Diffs: diffs}
+					if tagged != "" {
+						c.Report(v, tagged)
+						continue
+					}
 					var vc *ConfCase
 					if !obs.Diverged {
 						vc = &ConfCase{Text: text, Gen: gen, HasState: b.Flags.HasState(), HasMemo: b.Flags.HasMemo(), Runs: []ConfRun{{Input: in, Opts: oo, Script: script, Obs: obs}}}
